@@ -20,7 +20,7 @@ TECHNIQUE = (
 RULE = (
     "editions: every key of EDITIONS_LOOKUP (all edition names and variations) rendered as 'Foo v. Bar, 12 R 345'; those "
     "with >=2 candidate editions x years {none, start-1, start, end, end+1 of each edition the string can denote (exact or variation), every 10th year (quick) / every year (thorough) from 1600, 1599, 1600, this year, "
-    "next year, next year+1, 0000, 9999} x 7 year positions; docs: all concatenations of <=k fragments of A2. "
+    "next year, next year+1, 0000, 9999} x 9 year positions (two of them cite the same volume/page a second time without a year); docs: all concatenations of <=k fragments of A2. "
     "distinct = distinct text; non-trivial = a resource citation with >=2 candidate editions or a year was returned."
 )
 ASSUMPTIONS = [
@@ -32,7 +32,7 @@ ASSUMPTIONS = [
 A2 = c17.A2
 ALPHABETS = {"A2": A2}
 DEPTH = {"quick": {"AC": 3, "HS": 2, "REF": 2}, "thorough": {"AC": 4, "HS": 3, "REF": 2}}
-POSITIONS = ["post", "court", "bracket", "pre", "range", "parallel-after", "parallel-first"]
+POSITIONS = ["post", "court", "bracket", "pre", "range", "parallel-after", "parallel-first", "twice-after", "twice-before"]
 _REPS = {}
 _TIER = {"t": "quick"}
 
@@ -66,6 +66,10 @@ def render(rep, ys, pos):
         return f"Foo v. Bar, 1 U.S. 1, {core} ({ys})."
     if pos == "parallel-first":
         return f"Foo v. Bar, {core}, 1 U.S. 1 ({ys})."
+    if pos == "twice-after":  # the same citation again without a year (equal by value, ambiguous on its own)
+        return f"Foo v. Bar, {core} ({ys}). See {core}."
+    if pos == "twice-before":
+        return f"See {core}. Foo v. Bar, {core} ({ys})."
     raise KeyError(pos)
 
 
